@@ -1119,7 +1119,18 @@ func (e *env) segTerm(i int, in c10in, o segObs) string {
 	if o.LAKid != "" || o.LAKey != "" {
 		la = append(la, fmt.Sprintf("(%s, %s)", zb([]byte(o.LAKid)), zb([]byte(o.LAKey))))
 	}
-	return fmt.Sprintf("CSeg %d %s %s %s %d (%s, %d) (%s, %d) %s %s [%s] "+lib.Cbool(o.EncStatus == 200), i, e.modeTerm(in.DRM), zb([]byte(filepath.Base(in.Asset))), zb([]byte(o.LaURL)),
+	extra := ""
+	if strings.HasPrefix(in.DRM, "eccp_") && o.LaURL != "" {
+		// the announced licence URL against genLaURL: parts of the MPD request path, index of the first asset part
+		path := "/livesim2/" + in.prefix(true) + in.Asset + "/x.mpd"
+		var parts []string
+		for _, s := range strings.Split(path, "/") {
+			parts = append(parts, zb([]byte(s)))
+		}
+		idx := 2 + strings.Count(in.prefix(true), "/")
+		extra = fmt.Sprintf(";\n CLaURL %d %s [%s] %d %s", 1000000+i, zb([]byte("http://example.com")), strings.Join(parts, "; "), idx, zb([]byte(o.LaURL)))
+	}
+	return fmt.Sprintf("CSeg %d %s %s %s %d (%s, %d) (%s, %d) %s %s [%s] "+lib.Cbool(o.EncStatus == 200)+extra, i, e.modeTerm(in.DRM), zb([]byte(filepath.Base(in.Asset))), zb([]byte(o.LaURL)),
 		ctypeCode(in.CType), zb(unhexKid(o.MPDKid)), schemeCode(o.MPDScheme), zb(unhexKid(o.InitKid)), schemeCode(o.InitSchm), zb(o.Key), zb(o.InitIV), strings.Join(la, "; "))
 }
 
@@ -1764,6 +1775,9 @@ func runC10(c *lib.Ctx) error {
 		id := strconv.Itoa(i)
 		c.Res.Inputs[id] = in
 		e.oracle(c, id, in, obs[i])
+		if o := obs[i].seg; o != nil && strings.HasPrefix(in.DRM, "eccp_") && o.LaURL != "" {
+			c.Res.Inputs[strconv.Itoa(1000000+i)] = in // the licence URL case written next to the segment case
+		}
 		switch {
 		case obs[i].seg != nil:
 			o := obs[i].seg
